@@ -40,7 +40,10 @@ RULE = (
     "adapter or by the target's info; RegridNearest with location-identifying, repeated-value and random fields; "
     "'identity' pairs (target = another layout / class / permutation of the same located elements); RegridLinear "
     "(unstructured or masked source only, 2-3 D, never the structured RegularGridInterpolator path) with random "
-    "affine fields (dyadic coefficients) and random fields, with and without fill_with_nearest; every case through "
+    "affine fields (dyadic coefficients) and random fields, with and without fill_with_nearest; "
+    "'shifted' pairs: two structured grids (uniform / rectilinear / Esri, any layouts) of EQUAL dims and cell size "
+    "(1/2..30) whose origins differ by whole cells and/or fractions of a cell, mostly at projected-coordinate "
+    "magnitudes 1e5..1e7 (dyadic, exact), without explicit masks, RegridNearest; every case through "
     "bare slots or a Composition; in 40 % of the cases with a uniform/rectilinear side the grid OBJECT has a history: "
     "built with the other data location, used (data_points/data_shape/data_size read, or a complete judged "
     "preliminary regridding as source resp. target), then turned into the case's grid by copy()/copy(deep)+"
@@ -351,6 +354,8 @@ def _mask_choice(rng, n, allow_unset=True):
 
 
 def _gen_case(rng, kind):
+    if kind == "shifted":
+        return _gen_shifted(rng)
     method = "linear" if kind.startswith("lin") else "nearest"
     d = rng.choice([2, 2, 3]) if method == "linear" else rng.choice([1, 2, 2, 3])
     for _attempt in range(50):
@@ -433,6 +438,74 @@ def _gen_case(rng, kind):
             "affine": affine, "twin": isinstance(smask, list) and rng.random() < 0.5, "kind": kind}
 
 
+BIG_ORIGINS = [100000, 250000, 500000, 733000, 3400000, 5600000, 5812345, 9999000, 2 ** 20, 2 ** 23]
+CELL_SIZES = [1, 1, 1, 2, 2, 5, 10, 30, Fraction(1, 2), Fraction(5, 2)]
+CELL_SHIFTS = [0, 0, 1, 1, -1, 2, -2, 3, -3, Fraction(1, 2), Fraction(-1, 2), Fraction(1, 4), Fraction(3, 4), Fraction(3, 2),
+               Fraction(-5, 4), Fraction(5, 2)]
+
+
+def _gen_shifted(rng):
+    """Two structured grids of EQUAL dims and cell size, the target shifted against the source by whole cells and/or
+    fractions of a cell, mostly far from the origin (projected coordinates 1e5..1e7 with cell sizes 1/2..30, so that
+    the shift is tiny RELATIVE to the coordinates but not relative to the cells), no explicit mask on either side,
+    RegridNearest: any shortcut that takes 'nearly the same axes' for 'the same locations' delivers the same-index
+    element instead of the Euclidean-nearest one.  Coordinates stay dyadic: exact in binary64 and in Q."""
+    d = rng.choice([1, 2, 2, 2, 2, 3])
+    hi = {1: 9, 2: 7, 3: 4}[d]
+    while True:
+        dims = [rng.randint(3 if d < 3 else 2, hi) for _ in range(d)]
+        if int(np.prod(dims)) <= MAXN:
+            break
+    big = rng.random() < 0.85
+    esri_ok = d == 2
+    cls_s = rng.choice(["uniform", "rect"] + (["esri"] if esri_ok else []))
+    cls_t = rng.choice(["uniform", "rect"] + (["esri"] if esri_ok else []))
+    if "esri" in (cls_s, cls_t):
+        c = Fraction(rng.choice(CELL_SIZES))
+        cell = [c] * d
+        loc = "CELLS"
+    else:
+        cell = [Fraction(rng.choice(CELL_SIZES)) for _ in range(d)]
+        loc = rng.choice(["CELLS", "POINTS"])
+    if big:
+        org = [Fraction(rng.choice(BIG_ORIGINS)) + Fraction(rng.randint(0, 40), 4) for _ in range(d)]
+    else:
+        org = [Fraction(rng.randint(-12, 12), 4) for _ in range(d)]
+    while True:
+        sh = [Fraction(rng.choice(CELL_SHIFTS)) for _ in range(d)]
+        if any(sh) or rng.random() < 0.1:
+            break
+    org_t = [o + k * c for o, k, c in zip(org, sh, cell)]
+
+    def mk(cls, o):
+        order = rng.choice("CF")
+        if cls == "esri":
+            return {"cls": "esri", "ncols": dims[0] - 1, "nrows": dims[1] - 1, "cs": fr(cell[0]), "xll": fr(o[0]), "yll": fr(o[1]),
+                    "order": order}
+        rev = rng.random() < 0.5
+        inc = [rng.random() < 0.6 for _ in range(d)]
+        if cls == "uniform":
+            return {"cls": "uniform", "dims": list(dims), "spacing": [fr(c) for c in cell], "origin": [fr(x) for x in o],
+                    "inc": inc, "order": order, "rev": rev, "loc": loc}
+        return {"cls": "rect", "axes": [[fr(o[k] + i * cell[k]) for i in range(dims[k])] for k in range(d)], "inc": inc,
+                "order": order, "rev": rev, "loc": loc}
+    src, tgt = mk(cls_s, org), mk(cls_t, org_t)
+    if rng.random() < 0.3:
+        # same layout on both sides (the pass-through variant of such a shortcut)
+        for k in ("order", "rev", "inc"):
+            if k in src and k in tgt:
+                tgt[k] = src[k]
+    ns = int(np.prod(data_shape(src)))
+    perm = list(range(1, ns + 1))
+    rng.shuffle(perm)
+    am, down = rng.choice([(None, "flex"), (None, "flex"), ("flex", "flex"), ("flex", None), (None, "none"), ("none", None),
+                           ("none", "flex")])
+    return {"method": "nearest", "fill": False, "reuse": None, "via": "comp" if rng.random() < 0.3 else "bare",
+            "tgrid": rng.choice(["adapter", "adapter", "info", "both"]), "sgrid": rng.choice(["info", "info", "both"]),
+            "src": src, "tgt": tgt, "smask": rng.choice(["flex", "flex", "none"]), "src_ma": False,
+            "svals": [fr(v) for v in perm], "am": am, "down": down, "affine": None, "twin": False, "kind": "shifted"}
+
+
 def _u(dims, **kw):
     g = {"cls": "uniform", "dims": dims, "spacing": [fr(1)] * len(dims), "origin": [fr(0)] * len(dims), "inc": [True] * len(dims),
          "order": "F", "rev": False, "loc": "POINTS"}
@@ -484,6 +557,15 @@ CORPUS = [
     _case(_u([4, 3]), _u([3, 4], spacing=[fr(Fraction(3, 2)), fr(Fraction(3, 4))], loc="CELLS"),
           reuse={"sides": ["tgt"], "mode": "inplace", "touch": "regrid"}),
     _case(_u([4, 3]), _u([3, 3]), reuse={"sides": ["src"], "mode": "same", "touch": "regrid"}, twin=False),
+    # equal rasters in projected coordinates, shifted by whole cells (seeded/C16_g): 1 m cells at (500000, 5600000),
+    # shift (+2,-3) cells between an Esri raster and a uniform grid; same-layout grids shifted by (+1,+1); half a cell
+    _case({"cls": "esri", "ncols": 6, "nrows": 5, "cs": fr(1), "xll": fr(500000), "yll": fr(5600000), "order": "C"},
+          _u([7, 6], loc="CELLS", origin=[fr(500002), fr(5599997)], order="F"), via="comp", tgrid="info", kind="shifted"),
+    _case(_u([7, 6], loc="CELLS", origin=[fr(500000), fr(5600000)]), _u([7, 6], loc="CELLS", origin=[fr(500001), fr(5600001)]),
+          kind="shifted"),
+    _case(_u([6, 5], origin=[fr(3400000), fr(5812345)], spacing=[fr(2), fr(2)], order="C", rev=True),
+          _u([6, 5], origin=[fr(3400001), fr(5812346)], spacing=[fr(2), fr(2)], inc=[True, False]), kind="shifted"),
+    _case(_u([9], origin=[fr(9999000)], loc="CELLS"), _u([9], origin=[fr(9999003)], loc="CELLS"), kind="shifted", am="none", down=None),
     # 1-D and 3-D
     _case(_u([6], inc=[False]), _u([4], spacing=[fr(Fraction(3, 2))], loc="CELLS")),
     _case(_u([3, 2, 2], order="C", rev=True, inc=[True, False, True]), _u([2, 2, 3], loc="CELLS", order="F")),
@@ -501,7 +583,7 @@ CORPUS = [
 def generate(rng, tier):
     n = 1000 if tier == "quick" else 40000
     cases = list(CORPUS)
-    kinds = ["nearest"] * 4 + ["identity"] * 2 + ["linaff"] * 3 + ["linrand"]
+    kinds = ["nearest"] * 4 + ["identity"] * 2 + ["linaff"] * 3 + ["linrand"] + ["shifted"] * 2
     for i in range(n):
         cases.append(_gen_case(rng, kinds[i % len(kinds)]))
     return cases
